@@ -253,11 +253,11 @@ func GenAssertionModel(o ModelOpts) *rapid.Generator[AssertionModel] {
 			NameID:       S(o.text(t, "nameID")),
 			HasSC:        true, SCMethod: S(Bearer), HasSCD: true,
 			Recipient:      S(o.SP.ACS),
-			SCNotOnOrAfter: S(GenTimeString(now.Add(5 * time.Minute)).Draw(t, "scNOOA")),
+			SCNotOnOrAfter: S(GenTimeString(now.Add(5*time.Minute)).Draw(t, "scNOOA")),
 			SCInResponseTo: optOf(t, "scIRT", "_req1"),
 			HasConditions:  true,
-			NotBefore:      S(GenTimeString(now.Add(-5 * time.Minute)).Draw(t, "notBefore")),
-			NotOnOrAfter:   S(GenTimeString(now.Add(5 * time.Minute)).Draw(t, "notOnOrAfter")),
+			NotBefore:      S(GenTimeString(now.Add(-5*time.Minute)).Draw(t, "notBefore")),
+			NotOnOrAfter:   S(GenTimeString(now.Add(5*time.Minute)).Draw(t, "notOnOrAfter")),
 		}
 		if o.SP.IdPIssuer == "" {
 			a.Issuer = S(o.text(t, "aIssuerFree"))
